@@ -1428,8 +1428,11 @@ class Ev:
             self.store_mat(name, m, val)
             self.declare(name, m)
             return
-        if isinstance(val, (Obj, list)):
+        if isinstance(val, (Obj, list, AngleAxis)):
             self.declare(name, val)
+            return
+        if isinstance(val, Quat):
+            self.declare(name, self.bind_quat(name, val))
             return
         raise Unsupported("declaration of %s : %s" % (name, q))
 
